@@ -77,7 +77,8 @@ def run_one(name, seed, tmp, tier):
         env.setdefault("SYMX_MAX_SECS", "75")
         env.setdefault("SYMX_PROVE_MS", "3000")
         env.setdefault("SYMX_PROVE_RETRY_MS", "10000")
-        env.setdefault("SYMX_FEAS_RETRY_MS", "2500")
+        env.setdefault("SYMX_FEAS_MS", "250")
+        env.setdefault("SYMX_FEAS_RETRY_MS", "1200")
     else:
         env.setdefault("SYMX_PROVE_RETRY_MS", "60000")
     try:
